@@ -175,6 +175,80 @@ def table_region(run: Run, env, tname, what, anchor, retry_cls):
     run.table(f"retry.table:{what}:some-variant-checked", n_checked > 0, group="retry.table:cover")
 
 
+def bind_call(call, fdef):
+    """Python's argument binding of `call` against `fdef` (positional, keyword, defaults): parameter name -> argument expression (ast) or
+    ('default', ast).  None when the call cannot be bound."""
+    a = fdef.args
+    params = [x.arg for x in a.posonlyargs + a.args]
+    if any(isinstance(x, ast.Starred) for x in call.args) or any(k.arg is None for k in call.keywords) or a.vararg or a.kwarg:
+        return None
+    if len(call.args) > len(params):
+        return None
+    bound = dict(zip(params, call.args))
+    for k in call.keywords:
+        if k.arg in bound or k.arg not in params + [x.arg for x in a.kwonlyargs]:
+            return None
+        bound[k.arg] = k.value
+    defaults = dict(zip(params[len(params) - len(a.defaults):], a.defaults))
+    defaults.update({x.arg: d for x, d in zip(a.kwonlyargs, a.kw_defaults) if d is not None})
+    for p in params + [x.arg for x in a.kwonlyargs]:
+        if p not in bound:
+            if p not in defaults:
+                return None
+            bound[p] = ("default", defaults[p])
+    return bound
+
+
+def rest_deadline(run: Run, env):
+    """REST transports: the timeout handed to the per-method callable (by api-core's wrapper: the entry's timeout, or the per-call one) is the
+    timeout of the HTTP request - followed through Python's own argument binding of the emitted call against the emitted helper."""
+    from props import C04
+    for tname, what in ((TR + "rest.py.j2", "rest"), (TR + "rest_asyncio.py.j2", "rest-asyncio")):
+        try:
+            tree = J.parse(env, tname)
+        except Exception as e:      # noqa
+            run.table(f"retry.rest:{what}:template-present", False, detail=str(e)[:200], group="retry.rest:present")
+            continue
+        loop = C04._method_loop(tree, "__call__")
+        run.table(f"retry.rest:{what}:per-method-class-loop-present", loop is not None, group="retry.rest:present")
+        if loop is None:
+            continue
+        imports = list(tree.find_all((nodes.Import, nodes.FromImport)))
+        vs = J.render_nodes(env, tree, imports + list(loop.body), ["method", "service", "opts", "api"], maxlen=1)
+        run.fragments.append(frag_info(tname, f"_<Method> stub class ({what})", vs))
+        n = 0
+        for vi, var in enumerate(vs):
+            tag = f"retry.rest:{what}:v{vi}"
+            if var.error:
+                run.table(f"{tag}:render-safe", False, detail=var.error, group="retry.rest:render-safe")
+                continue
+            try:
+                tree_py, _ = parse_variant("class _Outer:\n" + var.text)
+            except SyntaxError as e:
+                run.table(f"{tag}:parses", False, detail=str(e), group="retry.rest:parses")
+                continue
+            cls = next((x for x in tree_py.body[0].body if isinstance(x, ast.ClassDef)), None)
+            call = C04._fn(cls, "__call__") if cls is not None else None
+            gr = C04._fn(cls, "_get_response") if cls is not None else None
+            if call is None or gr is None:
+                continue            # methods without a binding refuse the transport (C04)
+            n += 1
+            sends = [c for c in ast.walk(call) if isinstance(c, ast.Call) and isinstance(c.func, ast.Attribute) and c.func.attr == "_get_response"]
+            ok = len(sends) == 1 and "timeout" in [x.arg for x in call.args.args + call.args.kwonlyargs]
+            bound = bind_call(sends[0], gr) if ok else None
+            # inside the helper: the HTTP call's timeout keyword reads a parameter ...
+            http = [c for c in ast.walk(gr) if isinstance(c, ast.Call) and ast.unparse(c.func) == "getattr(session, method)"]
+            kw = next((k.value for c in http for k in c.keywords if k.arg == "timeout"), None) if len(http) == 1 else None
+            reassigned = {t.id for fn_ in (call, gr) for x in ast.walk(fn_) if isinstance(x, (ast.Assign, ast.AugAssign, ast.AnnAssign))
+                          for t in ast.walk(x.targets[0] if isinstance(x, ast.Assign) else x.target) if isinstance(t, ast.Name)}
+            # ... and that parameter is bound to the caller's `timeout`
+            good = bound is not None and isinstance(kw, ast.Name) and isinstance(bound.get(kw.id), ast.Name) and bound[kw.id].id == "timeout" and \
+                "timeout" not in reassigned and kw.id not in reassigned
+            detail = "call: " + (ast.unparse(sends[0])[-160:] if sends else "-") + " | def: " + ast.unparse(gr.args) + " | http timeout=" + (ast.unparse(kw) if kw is not None else "-")
+            run.table(f"{tag}:the-callable's-timeout-is-the-timeout-of-the-http-request", bool(good), detail=detail, group="retry.rest:deadline-reaches-the-wire")
+        run.table(f"retry.rest:{what}:some-variant-checked", n > 0, group="retry.rest:cover")
+
+
 def run(run: Run):
     stage1(run)
     to_float_table(run)
@@ -182,6 +256,7 @@ def run(run: Run):
     env = J.make_env()
     table_region(run, env, TR + "base.py.j2", "sync", None, "Retry")
     table_region(run, env, J.SERVICE_DIR + "_shared_macros.j2", "async", "prep_wrapped_messages_async_method", "AsyncRetry")
+    rest_deadline(run, env)
     run.assume("api-core: Retry(initial, maximum, multiplier, predicate, deadline) / wrap_method(default_retry, default_timeout) behave as documented; "
                "an explicit per-call retry/timeout overrides the default",
                "wf_service_config: initialBackoff, maxBackoff, backoffMultiplier > 0 (gRPC service-config schema) - otherwise the keyword is omitted and api-core's default applies")
